@@ -56,8 +56,12 @@ static const occa::dtype_t &dtypeFor(int e, Rng &r) {
   static const occa::dtype_t *d1[] = {&byte, &char_, &uint8, &int8, &bool_};
   static const occa::dtype_t *d2[] = {&short_, &int16, &uint16, &char2};
   static const occa::dtype_t *d4[] = {&int_, &int32, &uint32, &float_, &uchar4, &short2};
+  static const occa::dtype_t *d3[] = {&char3, &uchar3};
+  static const occa::dtype_t *d8[] = {&double_, &int64, &float2};
   if (e == 1) return *d1[r.in(0, 4)];
   if (e == 2) return *d2[r.in(0, 3)];
+  if (e == 3) return *d3[r.in(0, 1)];
+  if (e == 8) return *d8[r.in(0, 2)];
   return *d4[r.in(0, 5)];
 }
 
@@ -149,7 +153,7 @@ int main(int argc, char **argv) {
       const size_t patLen = (size_t)w.maxBytes;
       for (size_t i = 0; i < patLen; ++i) src[i] = (unsigned char)w.r.in(1, 255);
       for (auto &b : dst) b = SENT;
-      e = 1 << w.r.in(0, 2);
+      { static const int ES[] = {1, 2, 4, 1, 2, 4, 3, 8}; e = ES[w.r.in(0, 7)]; }
       const occa::dtype_t &dt = dtypeFor(e, w.r);
       occa::memory none, none2;
       size_t rdLen = 0;
